@@ -393,6 +393,138 @@ pub const GRID_CLASSES: &[(&str, &[u8])] = &[
     ("inner-quote", b"\""),
 ];
 
+
+/// A document of several well-formed string literals - plain, escaped, and (for byte input) with
+/// bytes that are not UTF-8 - read as `Vec<BCow>` in lossy mode and as typed fields in strict mode.
+fn run_multi(ctx: &mut Ctx, seed: u64) {
+    let mut r = Rng::new(seed);
+    let n = r.range(2, 6);
+    let mut lits: Vec<Vec<u8>> = vec![];
+    for _ in 0..n {
+        let mut t = vec![b'"'];
+        let pad = *r.pick(&[0usize, 1, 5, 20, 31, 32, 33, 64, 70]);
+        match r.below(5) {
+            0 => t.extend(std::iter::repeat(b'c').take(pad + 1)),
+            1 => {
+                t.extend(std::iter::repeat(b'e').take(pad));
+                t.extend_from_slice(r.pick(&["\\n", "\\u00e9", "\\ud83d\\ude00", "\\\"", "\\/"]).as_bytes());
+                t.extend_from_slice(b"z");
+            }
+            2 | 3 => {
+                t.extend(std::iter::repeat(b'i').take(pad));
+                t.extend_from_slice(*r.pick(&[&b"\xff"[..], b"\x80", b"\xc3", b"\xed\xa0\x80", b"\xf0\x9f"]));
+                t.extend_from_slice(b"y");
+                if r.chance(1, 3) {
+                    t.extend_from_slice(b"\\t");
+                }
+            }
+            _ => t.extend_from_slice("héllo 日本".as_bytes()),
+        }
+        t.push(b'"');
+        lits.push(t);
+    }
+    let mut doc = vec![b'['];
+    for (i, l) in lits.iter().enumerate() {
+        if i > 0 {
+            doc.extend_from_slice(if r.chance(1, 2) { b", " } else { b"," });
+        }
+        doc.extend_from_slice(l);
+    }
+    doc.push(b']');
+    let doc = exact(&doc);
+    let all_utf8 = std::str::from_utf8(&doc).is_ok();
+    ctx.class(if all_utf8 { "multi:utf8" } else { "multi:with-invalid-utf8" });
+    ctx.ops(1);
+    // lossy mode: every literal decodes to its lossy reference; a literal without escape that is
+    // valid UTF-8 is borrowed from the input, everything else is copied
+    match Deserializer::from_slice(&doc).utf8_lossy().deserialize::<Vec<BCow>>() {
+        Ok(v) => {
+            if v.len() != lits.len() {
+                ctx.fail("multi:length", format!("{} items for {} literals", v.len(), lits.len()));
+                return;
+            }
+            for (i, (BCow(c), l)) in v.iter().zip(&lits).enumerate() {
+                let body = &l[1..l.len() - 1];
+                let want = decode_lossy(body);
+                if want.as_deref() != Some(c.as_ref()) {
+                    ctx.fail("multi:decode-differs:lossy", format!("literal #{} {:?} decoded as {:?}, reference {:?}; document {:?}", i, String::from_utf8_lossy(l), c, want, String::from_utf8_lossy(&doc)));
+                    return;
+                }
+                let clean = !body.contains(&b'\\') && std::str::from_utf8(body).is_ok();
+                let borrowed = matches!(c, Cow::Borrowed(_));
+                if borrowed != clean && !c.is_empty() {
+                    ctx.fail("multi:borrow-differs:lossy", format!("literal #{} {:?} is {} but came back {}; document {:?}", i, String::from_utf8_lossy(l), if clean { "escape-free valid UTF-8" } else { "escaped or not UTF-8" }, if borrowed { "borrowed" } else { "owned" }, String::from_utf8_lossy(&doc)));
+                    return;
+                }
+                if borrowed && !within(&doc, c) {
+                    ctx.fail("multi:borrowed-outside-input", format!("literal #{}", i));
+                }
+            }
+        }
+        Err(e) => ctx.fail("multi:reject-wellformed:lossy", format!("{:?}: {}", String::from_utf8_lossy(&doc), e)),
+    }
+    if cfg!(feature = "utf8_lossy") {
+        // in that build from_slice itself is lossy
+        return;
+    }
+    // strict mode: the document is accepted as strings iff it is UTF-8; as byte buffers always;
+    // as lazy values iff UTF-8; mixed targets follow their own element kinds
+    ctx.ops(3);
+    let as_strings = sonic_rs::from_slice::<Vec<BCow>>(&doc);
+    match (&as_strings, all_utf8) {
+        (Ok(v), true) => {
+            for (i, (BCow(c), l)) in v.iter().zip(&lits).enumerate() {
+                let body = &l[1..l.len() - 1];
+                if decode_strict(body).as_deref() != Some(c.as_ref()) || matches!(c, Cow::Borrowed(_)) == body.contains(&b'\\') && !c.is_empty() {
+                    ctx.fail("multi:decode-or-borrow-differs:strict", format!("literal #{} {:?} -> {:?}; document {:?}", i, String::from_utf8_lossy(l), c, String::from_utf8_lossy(&doc)));
+                    return;
+                }
+            }
+        }
+        (Err(_), false) => {}
+        (Ok(_), false) => ctx.fail("multi:accept-invalid-utf8:strict", format!("{:?}", String::from_utf8_lossy(&doc))),
+        (Err(e), true) => ctx.fail("multi:reject-wellformed:strict", format!("{:?}: {}", String::from_utf8_lossy(&doc), e)),
+    }
+    match sonic_rs::from_slice::<Vec<serde_bytes::ByteBuf>>(&doc) {
+        Ok(v) => {
+            for (i, (b, l)) in v.iter().zip(&lits).enumerate() {
+                if crate::mon::c04::bytes_model(l).as_deref() != Some(&b[..]) {
+                    ctx.fail("multi:bytes-differ", format!("literal #{} {:?} read as bytes {:?}", i, String::from_utf8_lossy(l), b));
+                    return;
+                }
+            }
+        }
+        Err(e) => ctx.fail("multi:reject-as-bytes", format!("{:?}: {}", String::from_utf8_lossy(&doc), e)),
+    }
+    // alternating element kinds: bytes, string, bytes, ... - a string element is rejected only
+    // for what is in it
+    if lits.len() >= 3 {
+        let d3 = {
+            let mut d = vec![b'['];
+            d.extend_from_slice(&lits[0]);
+            d.push(b',');
+            d.extend_from_slice(&lits[1]);
+            d.push(b',');
+            d.extend_from_slice(&lits[2]);
+            d.push(b']');
+            exact(&d)
+        };
+        let r3 = sonic_rs::from_slice::<(serde_bytes::ByteBuf, BCow, serde_bytes::ByteBuf)>(&d3);
+        let mid_ok = std::str::from_utf8(&lits[1]).is_ok();
+        match (r3, mid_ok) {
+            (Ok((a, BCow(m), b)), true) => {
+                if crate::mon::c04::bytes_model(&lits[0]).as_deref() != Some(&a[..]) || crate::mon::c04::bytes_model(&lits[2]).as_deref() != Some(&b[..]) || decode_strict(&lits[1][1..lits[1].len() - 1]).as_deref() != Some(m.as_ref()) {
+                    ctx.fail("multi:mixed-differs", format!("(bytes, str, bytes) of {:?}", String::from_utf8_lossy(&doc)));
+                }
+            }
+            (Err(e), true) => ctx.fail("multi:mixed-reject-wellformed", format!("(bytes, str, bytes) of {:?}: {}", String::from_utf8_lossy(&doc), e)),
+            (Ok(_), false) => ctx.fail("multi:mixed-accept-invalid-str", format!("{:?}", String::from_utf8_lossy(&doc))),
+            (Err(_), false) => {}
+        }
+        ctx.class("multi:mixed-kinds");
+    }
+}
+
 fn grid_literal(class: usize, pos: usize, len: usize) -> Vec<u8> {
     let (_, seq) = GRID_CLASSES[class % GRID_CLASSES.len()];
     let mut lit = Vec::with_capacity(len + seq.len() + 2);
@@ -476,9 +608,20 @@ impl Check for C09 {
             }
             emit(Case::with("lit", lit, &[r.range(0, 64) as i64, r.range(0, 8) as i64]));
         }
+        // several literals in one document: the decoder's bookkeeping (UTF-8 cursor, scratch
+        // buffer, escape carry) must not leak from one literal into the next
+        let n = g.count(20_000, 1_500_000);
+        for _ in 0..n {
+            emit(Case::with("multi", vec![], &[r.next() as i64]));
+        }
     }
     fn exec(&self, ctx: &mut Ctx, c: &Case) {
         match c.entry.as_str() {
+            "multi" => {
+                run_multi(ctx, c.p(0) as u64);
+                ctx.nontrivial();
+                ctx.sample("multi");
+            }
             "cps" => {
                 // an array of literals, each a single escaped code point (pairs for astral)
                 let (start, n) = (c.p(0) as u32, c.p(1) as u32);
@@ -584,6 +727,6 @@ impl Check for C09 {
         }
     }
     fn required_classes(&self, _b: &str, _t: Tier) -> Vec<&'static str> {
-        vec!["codepoints:batch", "literal:unpaired-surrogate", "literal:well-formed", "literal:malformed", "literal:escaped", "grid:len>=32", "grid:esc-pair", "grid:bad-utf8"]
+        vec!["codepoints:batch", "literal:unpaired-surrogate", "literal:well-formed", "literal:malformed", "literal:escaped", "grid:len>=32", "grid:esc-pair", "grid:bad-utf8", "multi:with-invalid-utf8", "multi:utf8"]
     }
 }
